@@ -74,7 +74,8 @@ func (q *queue) len() uint64 {
 func (q *queue) push(ctx context.Context) (EvictFunc, <-chan core.Listener) {
 	q.mu.Lock()
 	defer q.mu.Unlock()
-	releaseChan := make(chan core.Listener)
+	// buffered so that a hand-off never depends on the waiter having reached its select yet
+	releaseChan := make(chan core.Listener, 1)
 
 	e := &queueElement{ctx: ctx, releaseChan: releaseChan}
 
@@ -270,14 +271,21 @@ func NewQueueBlockingLimiterWithDefaults(
 }
 
 func (l *QueueBlockingLimiter) tryAcquire(ctx context.Context) core.Listener {
+	// The attempt, the backlog bound check and the enqueue form one critical section with
+	// unblock: a release either completes before the attempt (which then sees the free
+	// capacity) or runs after the caller is queued (and hands the capacity over).
+	l.mu.Lock()
+
 	// Try to acquire a token and return immediately if successful
 	listener, ok := l.delegate.Acquire(ctx)
 	if ok && listener != nil {
+		l.mu.Unlock()
 		return listener
 	}
 
 	// Restrict backlog size so the queue doesn't grow unbounded during an outage
 	if l.backlog.len() >= l.maxBacklogSize {
+		l.mu.Unlock()
 		return nil
 	}
 
@@ -285,6 +293,7 @@ func (l *QueueBlockingLimiter) tryAcquire(ctx context.Context) core.Listener {
 	// operation.  Holders will be unblocked in LIFO or FIFO order depending on whatever
 	// ordering was configured when backlog was instantiated
 	evict, eventReleaseChan := l.backlog.push(ctx)
+	l.mu.Unlock()
 
 	// We're using a nil chan so that we
 	// can avoid needing to duplicate the
@@ -313,13 +322,27 @@ func (l *QueueBlockingLimiter) tryAcquire(ctx context.Context) core.Listener {
 		return listener
 	case <-backlogTimeout:
 		// Remove the holder from the backlog.
-		evict()
-		return nil
+		return l.giveUp(evict, eventReleaseChan)
 	case <-ctxDone:
 		// The context has been cancelled before `maxBacklogTimeout`
 		// could elapse. Since this context no longer needs a listener
 		// we evict it from the backlog to free up space.
-		evict()
+		return l.giveUp(evict, eventReleaseChan)
+	}
+}
+
+// giveUp removes a waiter that timed out or was cancelled from the backlog. unblock hands listeners
+// over while holding the limiter mutex, so once it is held here either the waiter is still queued
+// and nothing was delivered, or a listener already sits in the hand-off channel; that listener is
+// returned to the caller instead of being lost with its capacity.
+func (l *QueueBlockingLimiter) giveUp(evict EvictFunc, eventReleaseChan <-chan core.Listener) core.Listener {
+	l.mu.Lock()
+	defer l.mu.Unlock()
+	evict()
+	select {
+	case listener := <-eventReleaseChan:
+		return listener
+	default:
 		return nil
 	}
 }
